@@ -1,5 +1,6 @@
 namespace go c06.cm
 include "inc.thrift"
+include "inc2.thrift"
 
 enum Color { Red = 1, Green = 5, Blue = -2 }
 typedef Color Shade
@@ -27,6 +28,10 @@ const Shade CShade = Color.Blue
 const Ident CIdent = 12345678901
 const i32 CRef = CInt
 const i32 CIncRef = inc.IncNum
+const i32 CInc2Ref = inc2.CInt
+const string CInc2Str = inc2.CStr
+const inc2.Color CInc2Enum = inc2.Color.Red
+const list<i32> CInc2List = [inc2.CInt, CInt]
 const string CIncStr = inc.IncStr
 const inc.Level CIncEnum = inc.Level.Low
 const inc.Level CIncEnumRef = inc.IncLevel
@@ -72,6 +77,7 @@ struct Defs {
   23: optional inc.Level ilv = inc.Level.High
   24: i32 dref = inc.IncNum
   25: optional Ident oid = 99
+  26: i32 d2 = inc2.CInt
 }
 
 union UDef {
